@@ -132,7 +132,7 @@ ASSUMPTIONS = [
     'confirmed by a second run alone with a 3x budget',
     'memory blow-up is out of scope unless it shows as a time-out (MemoryError under the 2 GB cap is an allowed error)',
     'reference resolution (get_resolved_res_configs / get_app_name) is only exercised on ids whose reference graph is '
-    'acyclic and whose tree expansion is <= 5000 nodes, 40000 nodes over all ids of one table (cycles belong to C29)',
+    'acyclic and whose tree expansion is <= 5000 nodes, 20000 nodes over all ids of one table (cycles belong to C29)',
     'PBT finds hangs, it cannot establish termination',
     'seed files come from vf/gen writers (trusted to be well-formed) and tests/data',
 ]
@@ -227,7 +227,7 @@ def t_axml(data):
 
 
 RESOLVE_NODE_CAP = 5000
-RESOLVE_TOTAL_CAP = 40000
+RESOLVE_TOTAL_CAP = 20000
 
 
 def _resolve_plan(a):
